@@ -213,6 +213,9 @@ func leanTypeM(t types.Type) (string, error) {
 	if lt, ok := k11bType(t); ok { // wp k11b (ext_k11b.go): []bool, opaque object tokens
 		return lt, nil
 	}
+	if lt, ok := k11b2Type(t); ok { // wp k11b2 (ext_k11b2.go): intSet
+		return lt, nil
+	}
 	switch u := t.Underlying().(type) {
 	case *types.Basic:
 		if u.Info()&types.IsString != 0 {
@@ -372,6 +375,9 @@ func (fc *fnCtx) constList(p *packages.Package, ex ast.Expr, depth int) ([]int64
 // lexpr translates a list-valued expression (slice / string).
 func (fc *fnCtx) lexpr(ex ast.Expr) (string, error) {
 	if s, handled, err := fc.dmxLexpr(ex); handled { // wp dmmirror (ext_dmmirror.go)
+		return s, err
+	}
+	if s, handled, err := fc.k11b2Lexpr(ex); handled { // wp k11b2 (ext_k11b2.go): append, []byte(..)
 		return s, err
 	}
 	if tv, ok := fc.p.TypesInfo.Types[ex]; ok && tv.Value != nil && tv.Value.Kind() == constant.String {
@@ -1214,6 +1220,9 @@ func (fc *fnCtx) mblock(stmts []ast.Stmt, lvl int) (string, error) {
 	if text, handled, err := fc.k01decStmt(s, rest, lvl); handled { // wp k01dec (ext_k01dec.go)
 		return text, err
 	}
+	if text, handled, err := fc.k11b2Stmt(s, rest, lvl); handled { // wp k11b2 (ext_k11b2.go)
+		return text, err
+	}
 	switch x := s.(type) {
 	case *scopeEnd:
 		for _, n := range x.names {
@@ -1803,6 +1812,9 @@ func (fc *fnCtx) massign(x *ast.AssignStmt, rest []ast.Stmt, lvl int) (string, e
 	if s, handled, err := fc.k11bAssign(x, rest, lvl); handled { // wp k11b (ext_k11b.go)
 		return s, err
 	}
+	if s, handled, err := fc.k11b2Assign(x, rest, lvl); handled { // wp k11b2 (ext_k11b2.go)
+		return s, err
+	}
 	cont := func(prefix string) (string, error) {
 		r, err := fc.mblock(rest, lvl)
 		if err != nil {
@@ -2302,6 +2314,7 @@ func assignedIn3(stmts []ast.Stmt) (assigned, declared, whole map[string]bool) {
 			case *ast.CallExpr:
 				extAssignedByCall(x, assigned, whole) // ext_k17k20.go
 				k01decAssignedByCall(x, assigned, whole) // wp k01dec
+				k11b2AssignedByCall(x, assigned, whole) // wp k11b2 (ext_k11b2.go): intSet.add
 				if curFC != nil {
 					if recv, mi, ok := curFC.methodCallee(x); ok {
 						for _, f := range mi.outs {
@@ -2390,6 +2403,7 @@ func (fc *fnCtx) usedNames(nodes []ast.Node) map[string]bool {
 		})
 	}
 	fc.dmxUsed(nodes, used) // wp dmmirror
+	fc.k11b2Used(nodes, used) // wp k11b2 (ext_k11b2.go): out variables of a returning loop body
 	return used
 }
 
@@ -3044,6 +3058,7 @@ func genFuncM(p *packages.Package, e entry) (string, error) {
 		return "", ferr
 	}
 	fc.k11bPrepare(fd) // wp k11b (ext_k11b.go): AST pre-pass, abstract parameters
+	fc.k11b2Prepare(fd) // wp k11b2 (ext_k11b2.go): AST pre-pass, shadowing locals renamed
 	params, gerr := fc.dmxGlobals(fd, params) // wp dmmirror: init-filled package-level tables are leading parameters
 	if gerr != nil {
 		return "", gerr
